@@ -1,16 +1,18 @@
 import vp
 def jobs(tier):
     js = []
-    cpus = ["msp430", "avr8", "6800"] if tier == "quick" else ["msp430", "avr8", "6800", "mips32", "propeller", "68000", "z80", "pic14"]
+    cpus = ["msp430", "avr8", "6800", "mips32"] if tier == "quick" else ["msp430", "avr8", "6800", "mips32", "propeller", "68000", "z80", "pic14"]
     for cpu in cpus:
         for w in (8, 16, 32):
-            js.append(vp.Job("util_mem.%s.w%d" % (cpu, w), "util_mem.cpp", {"CPUNAME": '"%s"' % cpu, "WIDTH": w}, max_paths=200000, timeout=400, min_completed=4, allow_partial=True))
+            for aset in (0, 1, 2):
+                if aset == 2 and w == 32: continue
+                js.append(vp.Job("util_mem.%s.w%d.a%d" % (cpu, w, aset), "util_mem.cpp", {"CPUNAME": '"%s"' % cpu, "WIDTH": w, "ADDRSET": aset}, max_paths=200000, timeout=400, min_completed=4, allow_partial=True))
     return js
 def main(tier):
     return vp.check_property("C19", tier, jobs(tier),
         "The real UtilContext::write8/16/32 (with get_address/get_num/get_hex) run on a command line built from an engine-enumerated address (4 classes x 3 spellings: decimal, 0x, h-suffix), "
         "and two symbolic values (3 spellings); the real Memory is then read directly (byte order, address * bytes_per_address, neighbours unchanged) and through the real print8/16/32 whose captured "
         "stdout is parsed with branch-free hex arithmetic; Z3 decides all equalities for all values.",
-        ["CPUs: msp430 (1 byte/address, little endian), avr8 (2 bytes/address), 6800 (big endian); thorough adds mips32, propeller, 68000, z80, pic14",
-         "address classes {0, 0x20, 0xfffc, 0x12344}; symbol-name addresses, range forms other than a-b, the disasm/asm/set/run commands and -address/-set_pc are not covered",
+        ["CPUs: msp430 (1 byte/address, little endian), avr8 (2 bytes/address), 6800 (big endian), mips32 (alignment 4); thorough adds propeller, 68000, z80, pic14",
+         "address classes {0, 0x20, 0xfffc, 0x12344, 0x102 (16-bit aligned only; 8/16-bit commands)}; symbol-name addresses, range forms other than a-b, the disasm/asm/set/run commands and -address/-set_pc are not covered",
          "partial_allowed: paths explored until the time budget"])
